@@ -243,3 +243,65 @@ def checks(tier):
                encoded=[enc + "_check_variable_name", enc + "_check_section_name"],
                bounds="every name of 1..2 bytes", outside="longer names (rule is per character)", tiers=q),
     ]
+
+
+# ---------------------------------------------------------------------------------------------
+# (b') sequences of set / add / remove on a live ConfigFile vs a list-of-pairs model, then write and re-read
+_b20 = checks
+
+
+def h_sequences(eng, steps=4, op0=None, key0=None, val0=None):
+    vals = [b"1", b"2", b"x y"]
+    keys = [b"fetch", b"url"]
+    sec = (b"remote", b"origin")
+    cf = CF.ConfigFile()
+    model = []          # ordered list of (key, value)
+    for s in range(steps):
+        op = op0 if (s == 0 and op0 is not None) else eng.choice(f"op{s}", 3)
+        k = keys[key0 if (s == 0 and key0 is not None) else eng.choice(f"key{s}", 2)]
+        v = vals[val0 if (s == 0 and val0 is not None) else eng.choice(f"val{s}", 3)]
+        if op == 0:
+            cf.set(sec, k, v)
+            model = [(kk, vv) for kk, vv in model if kk != k] + [(k, v)]
+        elif op == 1:
+            cf.add(sec, k, v)
+            model.append((k, v))
+        else:
+            try:
+                cf.remove(sec, k)
+            except KeyError:
+                pass
+            model = [(kk, vv) for kk, vv in model if kk != k]
+        for kk in keys:
+            want = [vv for k2, vv in model if k2 == kk]
+            try:
+                got = list(cf.get_multivar(sec, kk))
+            except KeyError:
+                got = []
+            eng.prove(got == want, f"live object after step {s}: values of {kk!r} are {got}, model says {want}")
+    f = io.BytesIO()
+    cf.write_to_file(f)
+    cf2 = CF.ConfigFile.from_file(io.BytesIO(f.getvalue()))
+    for kk in keys:
+        want = [vv for k2, vv in model if k2 == kk]
+        try:
+            got = list(cf2.get_multivar(sec, kk))
+        except KeyError:
+            got = []
+        eng.prove(got == want, f"after write and re-read: values of {kk!r} are {got}, model says {want} (file: {f.getvalue()!r})")
+
+
+def checks(tier):
+    q = ("quick", "thorough")
+    enc = "dulwich.config."
+    return _b20(tier) + [
+        KCheck("C20b.sequences_4", h_sequences, parts=[{"steps": 4, "op0": o, "key0": k, "val0": v} for o in range(3) for k in range(2) for v in range(3)],
+               encoded=[enc + "ConfigDict.set/add/remove/get_multivar", enc + "CaseInsensitiveOrderedMultiDict"],
+               bounds="every sequence of 4 operations (as C20b.sequences)", outside="longer", time_budget=6000, tiers=("thorough",)),
+        KCheck("C20b.sequences", h_sequences, parts=[{"steps": 3, "op0": o, "key0": k} for o in range(3) for k in range(2)],
+               encoded=[enc + "ConfigDict.set/add/remove/get_multivar", enc + "CaseInsensitiveOrderedMultiDict (__setitem__, __delitem__, get_all)",
+                        enc + "ConfigFile.write_to_file/from_file"],
+               bounds="every sequence of 3 operations (4 thorough) from {set, add, remove} over 2 keys x 3 values in one subsection; the live object "
+                      "after every step and the re-read file are compared with an ordered list model (multi-valued keys keep order)",
+               outside="longer sequences; several sections", tiers=q),
+    ]
